@@ -633,6 +633,73 @@ def part_client(ctx, labelled, results_by_text):
     ctx.count('client', evaluations=n_ok + n_err, through_main_after_exception=n_err)
 
 
+def client_session(ctx, steps, tag='session'):
+    """ONE HipRaXClient instance and ONE input file path, rewritten between the calls (how a user edits a case file and
+    re-runs).  steps: [(text, param|None, k|None)] - param/k say how the step relates to steps[0].  Every call is compared
+    with the direct run of the text the file holds at that moment, and every scaled / re-spelled step with the first call
+    by the scaling oracle on the figures the client returns (printed precision).  -> list of (kind, key, what, inp, exp, obs)."""
+    from hip_ra import HipRaInputParameters
+    from hip_ra_x import HipRaXClient
+    import contextlib, io, logging
+    logging.disable(logging.CRITICAL)
+    client, path, out, got = HipRaXClient(), ctx.scratch / f'case_{tag}.txt', [], []
+    inp = {'kind': 'client-session', 'steps': [list(x) for x in steps]}
+    for text, _, _ in steps:
+        path.write_text(text)
+        try:
+            with contextlib.redirect_stdout(io.StringIO()), contextlib.redirect_stderr(io.StringIO()):
+                res = client.get_hip_ra_result(HipRaInputParameters(str(path)))
+            got.append({k: (v['value'], v['unit']) for k, v in res.result.items()})
+        except Exception as e:
+            got.append(f'{type(e).__name__}: {str(e)[:120]}')
+    direct = [hiprun.run_case(t, str(ctx.scratch)) for t, _, _ in steps]
+    for n, (g, d) in enumerate(zip(got, direct)):
+        want = {k: (float.fromhex(v), u) for k, v, u in d.get('client', [])}
+        if isinstance(g, str) or g != want:
+            diff = g if isinstance(g, str) else {k: (g.get(k), want.get(k)) for k in set(g) | set(want) if g.get(k) != want.get(k)}
+            out.append(('corr', f'client-session:call-{min(n, 1) + 1}-differs-from-direct-run',
+                        f'call {n + 1} of one HipRaXClient on one (rewritten) input file does not return the report of the text the file '
+                        f'holds: {str(diff)[:300]}', inp, None, None))
+    base = got[0]
+    if isinstance(base, str) or direct[0].get('calc_error') or direct[0].get('read_error'):
+        return out, 0
+    label_attr = {v: a for a, v in direct[0]['names'].items()}
+    labels = [k for k in base if k in label_attr and k not in ('Reservoir Depth', 'Reservoir Pressure')]
+    terms, meta = [], []
+    for n, (text, param, k) in enumerate(steps):
+        if n == 0 or isinstance(got[n], str) or any(l not in got[n] for l in labels):
+            continue
+        mask = [bool(_mask(param)[O[label_attr[l]]]) if k is not None else False for l in labels]
+        b, v = [F(base[l][0]) for l in labels], [F(got[n][l][0]) for l in labels]
+        terms.append(f'chk_scaled (15#1000) {qconv.q(F(k) if k is not None else F(1))} [{"; ".join(qconv.blit(m) for m in mask)}] '
+                     f'{qconv.qlist(b)} {qconv.qlist(v)}')
+        meta.append((n, param, k, labels, mask, b, v))
+    for i in fw.kernel_bools(ctx, f'client_{tag}', REQ, terms):
+        n, param, k, labels, mask, b, v = meta[i]
+        worst = max(range(len(labels)), key=lambda j: abs(float(v[j]) - float(b[j]) * (float(k) if mask[j] else 1.0)) / max(1.0, abs(float(v[j])), abs(float(b[j]))))
+        what = (f'multiplying {param} by {k}' if k is not None else f're-spelling {param} in another unit') + \
+            f' in the case file and re-running through the same HipRaXClient: reported "{labels[worst]}" goes {float(b[worst])!r} -> ' \
+            f'{float(v[worst])!r}, expected {float(b[worst]) * (float(k) if mask[worst] else 1.0)!r} (printed precision)'
+        out.append(('property', f'client-session:{"scale" if k is not None else "units"}:{param}', what, inp,
+                    float(b[worst]) * (float(k) if mask[worst] else 1.0), float(v[worst])))
+    return out, len(terms) + len(steps)
+
+
+def part_client_session(ctx, cfgs):
+    n = 0
+    for j, (_, cfg) in enumerate(cfgs):
+        thick_m = written_in('Reservoir Thickness', cfg['Reservoir Thickness'], 'meter')
+        steps = [(text_of(cfg), None, None),
+                 (text_of(scaled_text(cfg, 'Reservoir Area', F(2))), 'Reservoir Area', '2'),
+                 (text_of(scaled_text(cfg, 'Reservoir Thickness', F(2))), 'Reservoir Thickness', '2'),
+                 (text_of({**cfg, 'Reservoir Thickness': f'{thick_m} meter'}), 'Reservoir Thickness', None)]
+        found, m = client_session(ctx, steps, tag=str(j))
+        n += m
+        for kind, key, what, inp, exp, obs in found:
+            ctx.violate(kind, key, what, inp=inp, expected=exp, observed=obs)
+    ctx.count('client-session', evaluations=n, nontrivial_keys=[('session', j) for j in range(len(cfgs))])
+
+
 # ------------------------------------------------------------------------------------------------
 # entry points
 # ------------------------------------------------------------------------------------------------
@@ -662,8 +729,10 @@ def correspondence(ctx, proofs_ok=True):
     part_units(ctx, normal[:ctx.n(6, 60)], unit_table)
     mark('units')
     part_client(ctx, labelled, by_text)
+    part_client_session(ctx, [c for c in normal if float(c[1]['Reservoir Area']) <= 4000 and float(c[1]['Reservoir Temperature']) <= 590
+                              and float(c[1]['Reservoir Temperature']) > float(c[1]['Rejection Temperature'])][:ctx.n(3, 20)])
     part_legacy(ctx)
-    mark('client+legacy')
+    mark('client+session+legacy')
     ctx.note('partial report (main() prints after Calculate raised): outside the property - on every such run the printed figures '
              'satisfy the volume, additivity, cascade and scaling checkers (and C17_partial_report_additive/_cascade prove it of the '
              'model); observation only: the report carries no error status and e.g. for T > 600 C prints a non-zero producible heat next '
@@ -698,6 +767,15 @@ def replay(ctx, data):
         part_ranges(ctx)
         print('declared ranges vs Spec.HipRaSpec.in_range_b:', [v.key for v in ctx.violations] or 'agree')
         return 1 if ctx.violations else 0
+    if kind == 'client-session':
+        found, _ = client_session(ctx, [tuple(x) for x in inp['steps']], tag='replay')
+        for n, (t, param, k) in enumerate(inp['steps']):
+            print(f'--- call {n + 1}: case file rewritten to' + (f' ({param} x {k})' if k else '') + '\n' + t)
+        for kind_, key, what, *_ in found:
+            print(kind_, key, '-', what)
+        print('property', 'VIOLATED' if any(f[0] == 'property' for f in found) else 'holds', 'through one client / one file path;',
+              'client-vs-direct', 'DIFFERS' if any(f[0] == 'corr' for f in found) else 'agrees')
+        return 1 if found else 0
     if text is None:
         print('replay: nothing to re-execute (', data.get('what'), ')')
         return 1
